@@ -88,7 +88,8 @@ def _k_merge_shrinks(clause, facts):
         return False
     if clause == "output-is-input-or-merge":
         return facts.get("shape") == "shrunk-merge"
-    return clause == "drop-justified" and facts.get("sticks_out_of_shrunk_merge") is True
+    return clause == "drop-justified" and (facts.get("sticks_out_of_shrunk_merge") is True
+                                           or facts.get("tail_cut_by_same_profile_fragment") is True)
 
 
 @findings.classifier("c13_overlap_after_intermediate_removed")
@@ -101,11 +102,11 @@ def _k_intermediate(clause, facts):
 
 @findings.classifier("c13_chain_loser_not_restored")
 def _k_chain(clause, facts):
-    """ single greedy pass: a hit beaten by its successor stays dropped when the successor is beaten in turn.
-        Must not hide: a drop where no better conflicting hit exists in the input at all, or where every better
-        conflicting hit is kept (then the drop is justified anyway). """
+    """ single greedy pass: a hit beaten by its successor stays dropped when the successor is beaten in turn
+        or removed as incomplete afterwards. Must not hide: a drop where no better conflicting hit (or merge)
+        exists in the input at all, or where every better conflicting one is kept. """
     return (clause == "drop-justified" and facts.get("fn") == "refine"
-            and facts.get("better_conflicting_input_dropped") is True)
+            and facts.get("lost_to_absent_rival") is True)
 
 
 @findings.classifier("c13_normal_mode_keeps_last_chain_only")
@@ -115,6 +116,30 @@ def _k_last_chain(clause, facts):
         same-profile hit beyond the 1.5 x model span. """
     return (clause == "drop-justified" and facts.get("fn") == "refine" and facts.get("mode") == "normal"
             and facts.get("same_profile_restart") is True)
+
+
+@findings.classifier("c13_hmmer_earliest_short_hit_twice")
+def _k_hmmer_twice(clause, facts):
+    """ hmmer.remove_overlapping seeds the first group with hits[0] and then iterates over hits[0] again: when it
+        is shorter than overlap_limit it closes a group holding itself and is emitted twice (which hit that is
+        depends on the input order of equal starts). Must not hide: any other duplicate, any order dependence that
+        changes the *set* of surviving hits. """
+    if facts.get("fn") != "hmmer.remove_overlapping":
+        return False
+    if clause == "output-no-duplicates":
+        return facts.get("only_earliest_hit_shorter_than_limit") is True
+    return (clause == "permutation-invariant" and facts.get("same_set") is True
+            and facts.get("earliest_hit_shorter_than_limit") is True)
+
+
+@findings.classifier("c13_competition_groups_not_merged")
+def _k_groups_not_merged(clause, facts):
+    """ filter_results adds a bridging pair to both groups it touches instead of merging them; in a chain of
+        >= 4 hits (a-x-y-b) the survivors then depend on the order and, with score ties, a gene can lose every
+        hit (assertion). Must not hide: order dependence / crashes in genes whose overlap groups are cliques
+        or have fewer than 4 members. """
+    return (clause in ("permutation-invariant", "filter-crash") and facts.get("fn") == "filter_results"
+            and facts.get("chain_group_of_4") is True)
 
 
 @findings.classifier("c13_competition_score_tie_by_order")
@@ -367,7 +392,11 @@ def run_hmmer_case(ctx, case):
         if not ok:
             return
         if other != out:
+            first = min(h[1] for h in hits)
             ctx.violate("permutation-invariant", {"fn": "hmmer.remove_overlapping", "n": len(hits), "limit": limit,
+                                                  "same_set": set(other) == set(out),
+                                                  "earliest_hit_shorter_than_limit": any(
+                                                      h[1] == first and h[2] - h[1] < limit for h in hits),
                                                   "first_order": hits, "first_result": [list(h) for h in out],
                                                   "other_order": permuted, "other_result": [list(h) for h in other]},
                         dict(case, other_order=order))
@@ -421,6 +450,14 @@ def _as_sets(per_gene):
     return {gene: sorted(members) for gene, members in per_gene.items()}
 
 
+def _chain_group_of_4(members) -> bool:
+    """ an overlap group of >= 4 hits that is not a clique (two of its members do not overlap directly) """
+    for comp in R.components(members):
+        if len(comp) >= 4 and any(R.shared(a, b) <= R.COMPETE_OVERLAP for a, b in itertools.combinations(comp, 2)):
+            return True
+    return False
+
+
 def _filter_tie_facts(per_gene_in):
     """ is there an exact tie for the best score of an overlap group / of a profile in a gene? """
     tie = False
@@ -436,11 +473,29 @@ def _filter_tie_facts(per_gene_in):
     return tie
 
 
+def _crash_site(err) -> str:
+    import traceback
+    names = [f.name for f in traceback.extract_tb(err.__traceback__)]
+    for name in ("filter_results", "filter_result_multiple"):
+        if name in names:
+            return name
+    return "harness"
+
+
 def run_filter_case(ctx, case):
     hits, groups = case["hits"], case["groups"]
     key = ("filter", sorted(map(tuple, hits)), groups)
-    ok, snap = ctx.guard("filter-crash", case, _call_filters, hits, groups)
-    if not ok:
+    model_in = {}
+    for gene, profile, start, end, score in hits:
+        model_in.setdefault(gene, []).append(PHit(profile, start, end, score))
+    structure = {"tie_for_best": _filter_tie_facts(model_in),
+                 "chain_group_of_4": any(_chain_group_of_4(m) for m in model_in.values())}
+    try:
+        snap = _call_filters(hits, groups)
+    except Exception as err:  # pylint: disable=broad-except
+        ctx.count("op:filter_results")
+        ctx.violate("filter-crash", dict(structure, fn=_crash_site(err), exception=type(err).__name__, groups=groups,
+                                         hits=sorted(map(list, hits))), case)
         ctx.case(key, nontrivial=True)
         return
     flat_in, genes_in = snap["in"]
@@ -457,7 +512,9 @@ def run_filter_case(ctx, case):
             ctx.violate(clause, facts, case)
     nontrivial = any(len(comp) > 1 for members in genes_in.values() for comp in R.components(members)) \
         or any(len({h.profile for h in members}) < len(members) for members in genes_in.values())
-    tie = _filter_tie_facts(genes_in)
+    tie = structure["tie_for_best"]
+    if structure["chain_group_of_4"]:
+        ctx.count("shape:filter-chain-group-of-4")
     if tie:
         ctx.count("shape:filter-tie-for-best")
     ctx.case(key, nontrivial=nontrivial, sample=dict(case, survivors={g: [list(h) for h in hs]
@@ -467,14 +524,20 @@ def run_filter_case(ctx, case):
         permuted = [hits[i] for i in order]
         ctx.count("op:filter-permutation")
         independent = rng.randrange(1 << 30) if rng.random() < 0.5 else None
-        ok, other = ctx.guard("filter-crash", dict(case, hits=permuted), _call_filters, permuted, groups, independent)
-        if not ok:
+        try:
+            other = _call_filters(permuted, groups, independent)
+        except Exception as err:  # pylint: disable=broad-except
+            ctx.violate("filter-crash", dict(structure, fn=_crash_site(err), exception=type(err).__name__,
+                                             groups=groups, hits=sorted(map(list, hits))),
+                        dict(case, hits=permuted, independent_seed=independent))
             return
         for stage, fn in (("after_results", "filter_results"), ("after_multiple", "filter_result_multiple"),
                           ("multiple_alone", "filter_result_multiple")):
             if _as_sets(other[stage][1]) != _as_sets(snap[stage][1]):
                 ctx.violate("permutation-invariant", {
                     "fn": fn, "stage": stage, "tie_for_best": tie, "groups": groups,
+                    "chain_group_of_4": any(_chain_group_of_4(model_in[g]) for g in model_in
+                                            if _as_sets(other[stage][1]).get(g) != _as_sets(snap[stage][1]).get(g)),
                     "first_order": hits, "first_result": _as_sets(snap[stage][1]),
                     "other_order": permuted, "other_result": _as_sets(other[stage][1])},
                     dict(case, other_order=order, independent_seed=independent))
